@@ -60,6 +60,10 @@ def _prune_literal_if_trivial(plan: Plan, literal: Literal) -> None:
     predecessors = list(plan.graph.predecessors(literal))
     successors = list(plan.graph.successors(literal))
 
+    if literal in predecessors:
+        # The literal depends on itself: keep it so that the cycle is reported.
+        return
+
     m = len(predecessors)
     n = len(successors)
 
